@@ -178,7 +178,7 @@ def build(repo=None):
             ob["function"] = fn_label
             c = ob["clause"]
             if c[:3] in ("C04", "C08", "C09", "C12", "C16"):
-                ob["serves"] = [c[:3]] + (["C12", "C13", "C17"] if c[:3] == "C04" else [])
+                ob["serves"] = [c[:3]] + (["C12", "C13", "C17", "C09"] if c[:3] == "C04" else [])  # (C09: a structure name bound by a check that then fails or raises must be gone)
                 if c.startswith("C12:no-label") or c.startswith("C16:"):
                     ob["serves"] = ["C12", "C16", "C09"]  # the '?' label protocol: a restore obligation, the C16 mechanism, and what later structured checks (C09) need -- a label left behind makes them raise
                 if c.startswith("C12:flatten-mode-is-off"):
